@@ -10,7 +10,9 @@ use serde::{Deserialize, Serialize};
 use std::collections::BTreeSet;
 
 fn content_byte(seed: u32, i: usize) -> u8 {
-    let x = (seed as u64 ^ 0xD6E8_FEB8_6659_FD93).wrapping_mul(0x9E37_79B9_7F4A_7C15).wrapping_add((i as u64).wrapping_mul(0xC2B2_AE3D_27D4_EB4F));
+    let x = (seed as u64 ^ 0xD6E8_FEB8_6659_FD93)
+        .wrapping_mul(0x9E37_79B9_7F4A_7C15)
+        .wrapping_add((i as u64).wrapping_mul(0xC2B2_AE3D_27D4_EB4F));
     let x = x ^ (x >> 29);
     let b = (x >> 16) as u8;
     // make continuation bytes (high bit set) frequent so that varints run into the allocated mark
@@ -58,6 +60,10 @@ pub struct CaseC15 {
     /// file (position by the upper bits): the open must be refused or yield an arena on which the statement holds
     #[serde(default)]
     pub shrink: Option<u16>,
+    /// unsync only: after the rewind the arena is resized (truncate to a size by this value, monotone over
+    /// 0..=2*capacity) before the readers are queried - "all arena fill states" includes the ones a resize leaves behind
+    #[serde(default)]
+    pub trunc: Option<u16>,
 }
 
 const NREADERS: u8 = 2 + 16 + 8;
@@ -70,7 +76,13 @@ fn ref_varint_u(buf: &[u8], bits: u32) -> Option<(usize, u128)> {
     let mut shift = 0u32;
     for (i, b) in buf.iter().enumerate() {
         let low = (*b & 0x7f) as u128;
-        if shift >= 128 || (shift > 0 && low.checked_shl(shift).map(|x| x >> shift != low).unwrap_or(true)) {
+        if shift >= 128
+            || (shift > 0
+                && low
+                    .checked_shl(shift)
+                    .map(|x| x >> shift != low)
+                    .unwrap_or(true))
+        {
             return None;
         }
         v |= low << shift;
@@ -87,19 +99,33 @@ fn ref_varint_u(buf: &[u8], bits: u32) -> Option<(usize, u128)> {
 
 fn run_c15<A: Flavor>(case: &CaseC15) -> CaseReport {
     let mut classes: BTreeSet<&'static str> = BTreeSet::new();
-    let opts = Options::new().with_unify(case.unify).with_reserved(case.reserved as u32).with_freelist(rarena_allocator::Freelist::None);
-    let d = if case.unify { opts.data_offset_unify::<A>() } else { opts.data_offset::<A>() };
+    let opts = Options::new()
+        .with_unify(case.unify)
+        .with_reserved(case.reserved as u32)
+        .with_freelist(rarena_allocator::Freelist::None);
+    let d = if case.unify {
+        opts.data_offset_unify::<A>()
+    } else {
+        opts.data_offset::<A>()
+    };
     let cap = d + 1 + (case.extra as usize % 300);
     if let Some(sel) = case.shrink {
         return run_c15_shrunk::<A>(case, sel, classes);
     }
-    let Ok(arena) = opts.with_capacity(cap as u32).alloc::<A>() else {
-        return CaseReport { nontrivial: false, classes, viol: None };
+    let Ok(mut arena) = opts.with_capacity(cap as u32).alloc::<A>() else {
+        return CaseReport {
+            nontrivial: false,
+            classes,
+            viol: None,
+        };
     };
+    let mut cap = cap;
     let res = (|| -> Result<(), Viol> {
         // fill everything with content, then move the cursor back so that live-looking bytes lie above it
         {
-            let mut h = arena.alloc_bytes(arena.remaining() as u32).map_err(|e| viol!("C04", "fill-failed", "{e:?}"))?;
+            let mut h = arena
+                .alloc_bytes(arena.remaining() as u32)
+                .map_err(|e| viol!("C04", "fill-failed", "{e:?}"))?;
             let n = Buffer::capacity(&h);
             let p = h.as_mut_ptr();
             for i in 0..n {
@@ -112,10 +138,31 @@ fn run_c15<A: Flavor>(case: &CaseC15) -> CaseReport {
         unsafe { arena.rewind(ArenaPosition::Start(mark as u32)) };
         let allocated = arena.allocated();
         if allocated != mark {
-            return Err(viol!("C17", "rewind-target", "rewind(Start({mark})) left the cursor at {allocated}"));
+            return Err(viol!(
+                "C17",
+                "rewind-target",
+                "rewind(Start({mark})) left the cursor at {allocated}"
+            ));
+        }
+        if let (Some(t), false) = (case.trunc, A::SYNC) {
+            let n = (t as usize * (2 * cap + 1)) >> 16;
+            let r = guard("truncate", "C18", || arena.truncate_(n))?;
+            if let Some(Err(e)) = r {
+                return Err(viol!("C18", "truncate-failed", "truncate({n}) failed: {e:?}"));
+            }
+            // what truncate promises (C18); the slice lengths and the readers are judged against it below
+            cap = n.max(mark);
+            classes.insert(if mark == d { "resized-while-empty" } else { "resized" });
+        }
+        let allocated = arena.allocated();
+        if allocated != mark {
+            return Err(viol!("C15|C18", "cursor-after-resize", "truncate with the cursor at {mark} (data_offset {d}) left allocated()={allocated}: allocated_memory() / data() no longer have the lengths allocated() / allocated() - data_offset() of the arena that was resized"));
         }
         let mem = arena.memory().to_vec();
-        if mem.len() != cap || arena.allocated_memory().len() != allocated || arena.data().len() != allocated - arena.data_offset() {
+        if mem.len() != cap
+            || arena.allocated_memory().len() != allocated
+            || arena.data().len() != allocated - arena.data_offset()
+        {
             return Err(viol!("C15", "slice-lengths", "memory()/allocated_memory()/data() lengths {} {} {} with capacity {cap} allocated {allocated} data_offset {}", mem.len(), arena.allocated_memory().len(), arena.data().len(), arena.data_offset()));
         }
         if allocated < cap && mem[allocated..].iter().any(|b| *b != 0) {
@@ -225,36 +272,121 @@ fn run_c15<A: Flavor>(case: &CaseC15) -> CaseReport {
                 15 => fixed!(i64, get_i64_le, from_le_bytes, "get_i64_le"),
                 16 => fixed!(i128, get_i128_be, from_be_bytes, "get_i128_be"),
                 17 => fixed!(i128, get_i128_le, from_le_bytes, "get_i128_le"),
-                18 => varint!(u16, get_u16_varint, decode_u16_varint, 3, 16, false, "get_u16_varint"),
-                19 => varint!(u32, get_u32_varint, decode_u32_varint, 5, 32, false, "get_u32_varint"),
-                20 => varint!(u64, get_u64_varint, decode_u64_varint, 10, 64, false, "get_u64_varint"),
-                21 => varint!(u128, get_u128_varint, decode_u128_varint, 19, 128, false, "get_u128_varint"),
-                22 => varint!(i16, get_i16_varint, decode_i16_varint, 3, 16, true, "get_i16_varint"),
-                23 => varint!(i32, get_i32_varint, decode_i32_varint, 5, 32, true, "get_i32_varint"),
-                24 => varint!(i64, get_i64_varint, decode_i64_varint, 10, 64, true, "get_i64_varint"),
-                _ => varint!(i128, get_i128_varint, decode_i128_varint, 19, 128, true, "get_i128_varint"),
+                18 => varint!(
+                    u16,
+                    get_u16_varint,
+                    decode_u16_varint,
+                    3,
+                    16,
+                    false,
+                    "get_u16_varint"
+                ),
+                19 => varint!(
+                    u32,
+                    get_u32_varint,
+                    decode_u32_varint,
+                    5,
+                    32,
+                    false,
+                    "get_u32_varint"
+                ),
+                20 => varint!(
+                    u64,
+                    get_u64_varint,
+                    decode_u64_varint,
+                    10,
+                    64,
+                    false,
+                    "get_u64_varint"
+                ),
+                21 => varint!(
+                    u128,
+                    get_u128_varint,
+                    decode_u128_varint,
+                    19,
+                    128,
+                    false,
+                    "get_u128_varint"
+                ),
+                22 => varint!(
+                    i16,
+                    get_i16_varint,
+                    decode_i16_varint,
+                    3,
+                    16,
+                    true,
+                    "get_i16_varint"
+                ),
+                23 => varint!(
+                    i32,
+                    get_i32_varint,
+                    decode_i32_varint,
+                    5,
+                    32,
+                    true,
+                    "get_i32_varint"
+                ),
+                24 => varint!(
+                    i64,
+                    get_i64_varint,
+                    decode_i64_varint,
+                    10,
+                    64,
+                    true,
+                    "get_i64_varint"
+                ),
+                _ => varint!(
+                    i128,
+                    get_i128_varint,
+                    decode_i128_varint,
+                    19,
+                    128,
+                    true,
+                    "get_i128_varint"
+                ),
             }
         }
         Ok(())
     })();
-    let nontrivial = classes.contains("nonzero-above-mark") && (classes.contains("straddles-mark") || classes.contains("varint-runs-into-mark") || classes.contains("offset-usize-extreme"));
-    CaseReport { nontrivial, classes, viol: res.err() }
+    let nontrivial = classes.contains("nonzero-above-mark")
+        && (classes.contains("straddles-mark")
+            || classes.contains("varint-runs-into-mark")
+            || classes.contains("offset-usize-extreme"));
+    CaseReport {
+        nontrivial,
+        classes,
+        viol: res.err(),
+    }
 }
 
 /// File variant of C15: fill, rewind to the mark, close; reopen with a capacity option below the stored cursor.
-fn run_c15_shrunk<A: Flavor>(case: &CaseC15, sel: u16, mut classes: BTreeSet<&'static str>) -> CaseReport {
-    let opts = Options::new().with_reserved(case.reserved as u32).with_freelist(rarena_allocator::Freelist::None);
+fn run_c15_shrunk<A: Flavor>(
+    case: &CaseC15,
+    sel: u16,
+    mut classes: BTreeSet<&'static str>,
+) -> CaseReport {
+    let opts = Options::new()
+        .with_reserved(case.reserved as u32)
+        .with_freelist(rarena_allocator::Freelist::None);
     let d = opts.data_offset_unify::<A>();
     let cap = d + 1 + (case.extra as usize % 300);
     let path = crate::enga::fresh_path();
     let _ = std::fs::remove_file(&path);
     let res = (|| -> Result<(), Viol> {
-        let arena: A = match unsafe { opts.with_capacity(cap as u32).with_create_new(true).with_read(true).with_write(true).map_mut::<A, _>(&path) } {
+        let arena: A = match unsafe {
+            opts.with_capacity(cap as u32)
+                .with_create_new(true)
+                .with_read(true)
+                .with_write(true)
+                .map_mut::<A, _>(&path)
+        } {
             Ok(a) => a,
             Err(_) => return Ok(()),
         };
         {
-            let mut h = arena.alloc_bytes(arena.remaining() as u32).map_err(|e| viol!("C04", "fill-failed", "{e:?}"))?;
+            let mut h = arena
+                .alloc_bytes(arena.remaining() as u32)
+                .map_err(|e| viol!("C04", "fill-failed", "{e:?}"))?;
             let n = Buffer::capacity(&h);
             let p = h.as_mut_ptr();
             for i in 0..n {
@@ -275,7 +407,9 @@ fn run_c15_shrunk<A: Flavor>(case: &CaseC15, sel: u16, mut classes: BTreeSet<&'s
         let mode = (sel & 3) as u8;
         let o = opts.with_read(true).with_capacity(small as u32);
         let what = crate::enga::OPEN_NAMES[mode as usize];
-        let r = guard(what, "C15", || crate::enga::open_variant::<A>(o, mode, false, &path))?;
+        let r = guard(what, "C15", || {
+            crate::enga::open_variant::<A>(o, mode, false, &path)
+        })?;
         let arena = match r {
             Err(_) => {
                 classes.insert("reopen-below-cursor-refused");
@@ -284,7 +418,13 @@ fn run_c15_shrunk<A: Flavor>(case: &CaseC15, sel: u16, mut classes: BTreeSet<&'s
             Ok(a) => a,
         };
         classes.insert("reopen-below-cursor-accepted");
-        let (al, cp, ml, aml, dl) = (arena.allocated(), arena.capacity(), arena.memory().len(), arena.allocated_memory().len(), arena.data().len());
+        let (al, cp, ml, aml, dl) = (
+            arena.allocated(),
+            arena.capacity(),
+            arena.memory().len(),
+            arena.allocated_memory().len(),
+            arena.data().len(),
+        );
         if al > cp || aml > ml || dl > ml {
             // do not touch the slices: they reach past the mapping
             std::mem::forget(arena);
@@ -300,13 +440,21 @@ fn run_c15_shrunk<A: Flavor>(case: &CaseC15, sel: u16, mut classes: BTreeSet<&'s
         Ok(())
     })();
     let _ = std::fs::remove_file(&path);
-    CaseReport { nontrivial: classes.contains("reopen-below-cursor-refused") || classes.contains("reopen-below-cursor-accepted"), classes, viol: res.err() }
+    CaseReport {
+        nontrivial: classes.contains("reopen-below-cursor-refused")
+            || classes.contains("reopen-below-cursor-accepted"),
+        classes,
+        viol: res.err(),
+    }
 }
 
 mod dbutils_decode {
     // the decoder rarena itself delegates to (a dependency, not the code under test): the reader must
     // hand it exactly memory[o .. min(allocated, o + MAXLEN)]
-    pub use const_varint::{decode_i128_varint, decode_i16_varint, decode_i32_varint, decode_i64_varint, decode_u128_varint, decode_u16_varint, decode_u32_varint, decode_u64_varint};
+    pub use const_varint::{
+        decode_i128_varint, decode_i16_varint, decode_i32_varint, decode_i64_varint,
+        decode_u128_varint, decode_u16_varint, decode_u32_varint, decode_u64_varint,
+    };
 }
 
 impl Prop for C15 {
@@ -323,8 +471,31 @@ impl Prop for C15 {
             1 => any::<u8>().prop_map(OffSpec::Big),
         ];
         let q = (0..NREADERS, off).prop_map(|(reader, off)| Query { reader, off });
-        (any::<bool>(), any::<bool>(), prop_oneof![Just(0u8), 0u8..40], any::<u16>(), any::<u32>(), any::<u16>(), prop::collection::vec(q, 1..=nq), prop_oneof![39 => Just(None), 1 => any::<u16>().prop_map(Some)])
-            .prop_map(|(sync, unify, reserved, extra, seed, mark, queries, shrink)| CaseC15 { sync, unify, reserved, extra, seed, mark, queries, shrink })
+        (
+            any::<bool>(),
+            any::<bool>(),
+            prop_oneof![Just(0u8), 0u8..40],
+            any::<u16>(),
+            any::<u32>(),
+            // the mark: anywhere, with the two ends (empty arena, full arena) made likely
+            prop_oneof![1 => Just(0u16), 1 => Just(u16::MAX), 8 => any::<u16>()],
+            prop::collection::vec(q, 1..=nq),
+            prop_oneof![39 => Just(None), 1 => any::<u16>().prop_map(Some)],
+            prop_oneof![3 => Just(None), 1 => any::<u16>().prop_map(Some)],
+        )
+            .prop_map(
+                |(sync, unify, reserved, extra, seed, mark, queries, shrink, trunc)| CaseC15 {
+                    sync,
+                    unify,
+                    reserved,
+                    extra,
+                    seed,
+                    mark,
+                    queries,
+                    shrink,
+                    trunc,
+                },
+            )
             .boxed()
     }
     fn run(case: &CaseC15) -> CaseReport {
@@ -363,6 +534,16 @@ pub struct CaseC19 {
     pub delta: i16,
     pub seed: u32,
     pub backend: u8,
+    /// 0 none, 1 optimistic, 2 pessimistic
+    #[serde(default)]
+    pub freelist: u8,
+    /// with a free list: the fill is made of three blocks and the middle one (its size by this value, monotone) is
+    /// released, so that the header - part of the checksummed bytes in the unified layout - holds a non-empty list
+    #[serde(default)]
+    pub hole: Option<u16>,
+    /// file backend: the checksum is (also) taken in a later read-only session of the file
+    #[serde(default)]
+    pub reopen_ro: bool,
 }
 
 /// A checksummer whose streaming state is the running index: independent of chunk boundaries,
@@ -407,10 +588,23 @@ pub struct C19;
 fn run_c19<A: Flavor>(case: &CaseC19) -> CaseReport {
     let mut classes: BTreeSet<&'static str> = BTreeSet::new();
     let page = crate::enga::page_size();
-    let opts = Options::new().with_unify(case.unify).with_reserved(case.reserved as u32).with_freelist(rarena_allocator::Freelist::None);
+    let fl = match case.freelist % 3 {
+        0 => rarena_allocator::Freelist::None,
+        1 => rarena_allocator::Freelist::Optimistic,
+        _ => rarena_allocator::Freelist::Pessimistic,
+    };
+    let opts = Options::new()
+        .with_unify(case.unify)
+        .with_reserved(case.reserved as u32)
+        .with_freelist(fl)
+        .with_minimum_segment_size(8);
     let file = case.backend % 8 == 7;
     let anon = case.backend % 8 == 6;
-    let d = if case.unify || file { opts.data_offset_unify::<A>() } else { opts.data_offset::<A>() };
+    let d = if case.unify || file {
+        opts.data_offset_unify::<A>()
+    } else {
+        opts.data_offset::<A>()
+    };
     let reserved = case.reserved as usize;
     // checksummed slice = allocated_memory()[reserved..]; its minimum length is d - reserved
     let want_len = ((case.pages as usize % 4) * page) as i64 + case.delta as i64;
@@ -418,24 +612,48 @@ fn run_c19<A: Flavor>(case: &CaseC19) -> CaseReport {
     let allocated = reserved + len;
     let cap = allocated + (case.seed as usize % 64);
     let mut path = None;
-    let arena: A = if file {
+    let mut arena: A = if file {
         let p = crate::enga::fresh_path();
         let _ = std::fs::remove_file(&p);
-        let r = unsafe { opts.with_capacity(cap as u32).with_create_new(true).with_read(true).with_write(true).map_mut::<A, _>(&p) };
+        let r = unsafe {
+            opts.with_capacity(cap as u32)
+                .with_create_new(true)
+                .with_read(true)
+                .with_write(true)
+                .map_mut::<A, _>(&p)
+        };
         path = Some(p);
         match r {
             Ok(a) => a,
-            Err(_) => return CaseReport { nontrivial: false, classes, viol: None },
+            Err(_) => {
+                return CaseReport {
+                    nontrivial: false,
+                    classes,
+                    viol: None,
+                }
+            }
         }
     } else if anon {
         match opts.with_capacity(cap as u32).map_anon::<A>() {
             Ok(a) => a,
-            Err(_) => return CaseReport { nontrivial: false, classes, viol: None },
+            Err(_) => {
+                return CaseReport {
+                    nontrivial: false,
+                    classes,
+                    viol: None,
+                }
+            }
         }
     } else {
         match opts.with_capacity(cap as u32).alloc::<A>() {
             Ok(a) => a,
-            Err(_) => return CaseReport { nontrivial: false, classes, viol: None },
+            Err(_) => {
+                return CaseReport {
+                    nontrivial: false,
+                    classes,
+                    viol: None,
+                }
+            }
         }
     };
     let res = (|| -> Result<(), Viol> {
@@ -446,16 +664,55 @@ fn run_c19<A: Flavor>(case: &CaseC19) -> CaseReport {
             }
         }
         let n = allocated - arena.allocated();
-        if n > 0 {
-            let mut h = arena.alloc_bytes(n as u32).map_err(|e| viol!("C04", "fill-failed", "{e:?}"))?;
-            let p = h.as_mut_ptr();
-            for i in 0..n {
-                unsafe { p.add(i).write(content_byte(case.seed, i)) };
+        // one block, or - with a free list and room for it - three, the middle one released again (it becomes a segment:
+        // the cursor stays where it is, the list in the header is no longer empty)
+        let hole = match case.hole {
+            Some(h) if case.freelist % 3 != 0 && n >= 96 => {
+                Some(24 + ((h as usize * (n - 96 + 1)) >> 16))
             }
-            unsafe { Buffer::detach(&mut h) };
+            _ => None,
+        };
+        let parts: Vec<usize> = match hole {
+            Some(h) => {
+                let first = (n - h) / 2;
+                vec![first, h, n - h - first]
+            }
+            None => vec![n],
+        };
+        {
+            let mut at = 0usize;
+            let mut middle = None;
+            for (k, len_k) in parts.iter().enumerate() {
+                if *len_k == 0 {
+                    continue;
+                }
+                let mut h = arena
+                    .alloc_bytes(*len_k as u32)
+                    .map_err(|e| viol!("C04", "fill-failed", "{e:?}"))?;
+                let p = h.as_mut_ptr();
+                for i in 0..*len_k {
+                    unsafe { p.add(i).write(content_byte(case.seed, at + i)) };
+                }
+                at += len_k;
+                if hole.is_some() && k == 1 {
+                    middle = Some(h);
+                } else {
+                    unsafe { Buffer::detach(&mut h) };
+                }
+            }
+            if let Some(h) = middle {
+                // released while a block lies above it: it goes to the list, not back to the cursor
+                drop(h);
+                classes.insert("segment-in-free-list");
+            }
         }
         if arena.allocated() != allocated {
-            return Err(viol!("C01", "cursor-range", "could not reach allocated()={allocated}, got {}", arena.allocated()));
+            return Err(viol!(
+                "C01",
+                "cursor-range",
+                "could not reach allocated()={allocated}, got {}",
+                arena.allocated()
+            ));
         }
         // bytes above the mark must not matter
         unsafe {
@@ -463,6 +720,17 @@ fn run_c19<A: Flavor>(case: &CaseC19) -> CaseReport {
             for i in allocated..arena.capacity() {
                 p.add(i).write(0xEE);
             }
+        }
+        if file && case.reopen_ro {
+            // a later read-only session of the same file (the list head stored in the file is part of what it sums)
+            let p = path.clone().unwrap();
+            let tmp = std::mem::replace(
+                &mut arena,
+                unsafe { opts.with_read(true).map::<A, _>(&p) }
+                    .map_err(|e| viol!("C05", "reopen-failed", "{e:?}"))?,
+            );
+            drop(tmp);
+            classes.insert("read-only-session");
         }
         // the statement's right-hand side, literally: allocated_memory()[reserved_bytes()..] as the arena reports them
         // (a wrong reserved_bytes() or allocated_memory() length is judged through the equation first; only if the
@@ -493,10 +761,19 @@ fn run_c19<A: Flavor>(case: &CaseC19) -> CaseReport {
             return Err(viol!("C19", "possum-differs", "checksum(position-weighted sum)={got:#x}, one-shot over allocated_memory()[{reserved}..] (len {len}) = {want:#x}"));
         }
         if arena.reserved_bytes() != reserved {
-            return Err(viol!("C16", "acc-reserved-bytes", "reserved_bytes()={} configured {reserved}", arena.reserved_bytes()));
+            return Err(viol!(
+                "C16",
+                "acc-reserved-bytes",
+                "reserved_bytes()={} configured {reserved}",
+                arena.reserved_bytes()
+            ));
         }
         if data_len != len {
-            return Err(viol!("C15", "slice-lengths", "allocated_memory()[reserved..] has length {data_len}, expected {len}"));
+            return Err(viol!(
+                "C15",
+                "slice-lengths",
+                "allocated_memory()[reserved..] has length {data_len}, expected {len}"
+            ));
         }
         Ok(())
     })();
@@ -504,17 +781,58 @@ fn run_c19<A: Flavor>(case: &CaseC19) -> CaseReport {
     if let Some(p) = path {
         let _ = std::fs::remove_file(p);
     }
-    let nontrivial = classes.contains("at-page-multiple") || (classes.contains("multi-page") && reserved > 0);
-    CaseReport { nontrivial, classes, viol: res.err() }
+    let nontrivial =
+        classes.contains("at-page-multiple") || (classes.contains("multi-page") && reserved > 0);
+    CaseReport {
+        nontrivial,
+        classes,
+        viol: res.err(),
+    }
 }
 
 impl Prop for C19 {
     type Case = CaseC19;
     const ID: &'static str = "C19";
     fn strategy(_tier: Tier) -> BoxedStrategy<CaseC19> {
-        let delta = prop_oneof![5 => -2i16..=2, 2 => -64i16..=64, 2 => any::<i16>().prop_map(|v| v % 4096)];
-        (any::<bool>(), any::<bool>(), prop_oneof![2 => Just(0u8), 3 => 0u8..=64], 0u8..4, delta, any::<u32>(), any::<u8>())
-            .prop_map(|(sync, unify, reserved, pages, delta, seed, backend)| CaseC19 { sync, unify, reserved, pages, delta, seed, backend })
+        let delta =
+            prop_oneof![5 => -2i16..=2, 2 => -64i16..=64, 2 => any::<i16>().prop_map(|v| v % 4096)];
+        (
+            any::<bool>(),
+            any::<bool>(),
+            prop_oneof![2 => Just(0u8), 3 => 0u8..=64],
+            0u8..4,
+            delta,
+            any::<u32>(),
+            any::<u8>(),
+            0u8..3,
+            prop_oneof![1 => Just(None), 1 => any::<u16>().prop_map(Some)],
+            any::<bool>(),
+        )
+            .prop_map(
+                |(
+                    sync,
+                    unify,
+                    reserved,
+                    pages,
+                    delta,
+                    seed,
+                    backend,
+                    freelist,
+                    hole,
+                    reopen_ro,
+                )| CaseC19 {
+                    sync,
+                    unify,
+                    reserved,
+                    pages,
+                    delta,
+                    seed,
+                    backend,
+                    freelist,
+                    hole,
+                    reopen_ro,
+                },
+            )
             .boxed()
     }
     fn run(case: &CaseC19) -> CaseReport {
@@ -528,6 +846,6 @@ impl Prop for C19 {
         scale(tier, 480_000, 5_000_000)
     }
     fn rule() -> &'static str {
-        "reserved 0..=64, checksummed length = k*page + delta for k in 0..=3 and delta dense at -2..=2 (plus random), reached exactly by one alloc_bytes of the right size, pseudo-random content, 0xEE above the mark, Vec / anon / file backends, both flavours; oracle: checksum(b) == b.checksum_one(allocated_memory()[reserved..]) for Crc32 and for a position-weighted sum (sum of (i+1)*(b_i+1) mod 2^64-59, xor rotated length) whose streaming state is the running index, so dropped, repeated or reordered chunks change the result while chunk boundaries do not. Non-trivial = length within 1 of a page multiple (>= 1 page), or multi-page with a non-empty reserved prefix"
+        "reserved 0..=64, checksummed length = k*page + delta for k in 0..=3 and delta dense at -2..=2 (plus random), reached exactly by one alloc_bytes of the right size - or, with a free list, by three blocks of which the middle one is released again, so that the header (part of the checksummed bytes in the unified layout) holds a non-empty list; file-backed cases may take the checksum in a later read-only session -, pseudo-random content, 0xEE above the mark, Vec / anon / file backends, both flavours; oracle: checksum(b) == b.checksum_one(allocated_memory()[reserved..]) for Crc32 and for a position-weighted sum (sum of (i+1)*(b_i+1) mod 2^64-59, xor rotated length) whose streaming state is the running index, so dropped, repeated or reordered chunks change the result while chunk boundaries do not. Non-trivial = length within 1 of a page multiple (>= 1 page), or multi-page with a non-empty reserved prefix"
     }
 }
